@@ -541,6 +541,10 @@ func (tc *typechecker) typeof(expr ast.Expression, typeExpected bool) *typeInfo 
 			dir = reflect.SendDir
 		}
 		elem := tc.checkType(expr.ElementType)
+		if elem.Type.Size() >= 1<<16 {
+			// reflect.ChanOf would panic.
+			panic(tc.errorf(expr, "channel element type too large (>64kB)"))
+		}
 		return &typeInfo{Properties: propertyIsType, Type: tc.types.ChanOf(dir, elem.Type)}
 
 	case *ast.CompositeLiteral:
